@@ -17,6 +17,8 @@ def mkrule(rng, key):
         if rng.random() < 0.2: r["id"] = rng.choice(RIDS)
         return r
     r = {"when": {"pattern": {key: "?x"}}, "action": action(rng, 0)}
+    if rng.random() < 0.2:
+        r["when"]["pattern"] = {key: {"kind": rng.choice(["?x", "lamp"])}}     # a structured value under the key other rules use for plain values
     if rng.random() < 0.15: r["id"] = rng.choice(RIDS)      # an `id` inside the rule body is data, not the id the rule is stored under
     if rng.random() < 0.1:
         r["expires"] = int(time.time()) + rng.choice([100000, -100])
@@ -64,7 +66,7 @@ def gen_case(rng, thorough):
         elif r < 0.67: ops.append({"op": "clear", "loc": loc})
         elif r < 0.72: ops.append({"op": "listRules", "loc": "a", "inherited": True})
         elif r < 0.80: ops.append({"op": "event", "loc": rng.choice(locs), "event": {"trigger!": rid}})      # what the cron service sends when a scheduled rule is due
-        else: ops.append({"op": "event", "loc": "a", "event": {rng.choice(keys): rng.choice([1, "v"])}})
+        else: ops.append({"op": "event", "loc": "a", "event": {rng.choice(keys): rng.choice([1, "v", {"kind": "lamp"}, {"kind": "lamp", "on": 1}])}})
     if rng.random() < 0.3:
         # directed: a scheduled rule (no `when`; evaluated only when the cron service names it in `trigger!`) that is disabled when its
         # tick arrives does not run; enabled again it runs. Also for a rule with a `when`, named by a trigger that carries matching data.
